@@ -151,7 +151,7 @@ def gates(c, tier):
     for k in ("schedule:random", "schedule:sequential", "schedule:alternation", "alternations>=10", "direct:registered-decodes-custom",
               "direct:unregistered-generic-control", "direct:unregistered-filter-protocolerror", "direct:unregistered-auth-protocolerror",
               "direct:duplicate-refused", "direct:builtin-clash-refused", "custom-bytes-in-sequence", "registration-in-sequence",
-              "caller-buffer-shared-between-sessions", "direct:multi-control-messages", "direct:same-number-different-form", "fresh-process-reference-runs"):
+              "caller-buffer-shared-between-sessions", "direct:multi-control-messages", "direct:same-number-different-form", "direct:nested-custom-filter", "fresh-process-reference-runs"):
         if c.get(k, 0) == 0:
             out.append(f"never observed {k}")
     for sub in range(8):
@@ -174,6 +174,17 @@ def bytes_custom_control(mid, role):
 def bytes_custom_filter(mid):
     root = rfc4511.Enc().message(("SearchRequest", mid, ("dc=x", 2, 0, 0, 0, False, ("present", "cn"), ()), ()))
     root.children[1].children[6] = ber.Node(ber.CTX, False, 1024, content=b"custom-filter-value")
+    return ber.ser(root)
+
+
+def bytes_nested_custom_filter(mid, shape):
+    """The custom filter below and / or / not (registered sessions must decode it at any depth)."""
+    leaf = ber.Node(ber.CTX, False, 1024, content=b"nested-custom")
+    eq = rfc4511.Enc().filter(("eq", "cn", b"x"))
+    wrap = lambda tag, kids: ber.Node(ber.CTX, True, tag, children=kids)
+    node = {0: wrap(1, [eq, leaf]), 1: wrap(0, [leaf, eq]), 2: wrap(2, [leaf]), 3: wrap(1, [wrap(2, [leaf])]), 4: wrap(0, [wrap(1, [leaf])]), 5: wrap(2, [wrap(1, [eq, leaf])])}[shape % 6]
+    root = rfc4511.Enc().message(("SearchRequest", mid, ("dc=x", 2, 0, 0, 0, False, ("present", "cn"), ()), ()))
+    root.children[1].children[6] = node
     return ber.ser(root)
 
 
@@ -238,7 +249,8 @@ def g_sequence(r, subset):
             if role == "server":
                 steps.append(("receive", r.choice([bytes_custom_control(fresh, role), bytes_custom_filter(fresh), bytes_custom_auth(fresh), bytes_other("control", fresh, role),
                                                    bytes_other("filter", fresh, role), bytes_other("auth", fresh, role), bytes_known_control(fresh, role, True),
-                                                   bytes_known_control(fresh, role, False), bytes_two_controls(fresh, role, r.randrange(7)), bytes_two_controls(fresh, role, r.randrange(7))])))
+                                                   bytes_known_control(fresh, role, False), bytes_two_controls(fresh, role, r.randrange(7)), bytes_two_controls(fresh, role, r.randrange(7)),
+                                                   bytes_nested_custom_filter(fresh, r.randrange(6)), bytes_nested_custom_filter(fresh, r.randrange(6))])))
             else:
                 ip = sorted(i_ for i_, k in shadow.model.ip.items() if k == "search")
                 mid_ = ip[0] if ip else 1
@@ -263,6 +275,8 @@ def g_sequence(r, subset):
             steps.append(("custom-bind", "u%d" % i))
         elif x < 0.7:
             steps.append(("custom-control-call", i))
+        elif x < 0.72:
+            steps.append(("failing-send", i))
         elif x < 0.74 and role == "client":
             steps.append(("other-bind", "t%d" % i))
         elif x < 0.78 and role == "client":
@@ -293,6 +307,12 @@ def exec_step(role, sess, drv_call, a, held=None):
             ret = sess.search_request("dc=c", filter=CustomFilter(value=a[1]))
         elif k == "custom-bind":
             ret = sess.bind("cn=c", CustomAuth(username=a[1]))
+        elif k == "failing-send":
+            # raises while encoding (unencodable text): whatever it leaves behind must stay inside this session
+            if role == "client":
+                ret = sess.search_request("dc=x", attributes=["cn", "bad\udc80attr"]) if a[1] % 2 else sess.extended_request("1.2.\ud800")
+            else:
+                ret = sess.search_result_entry(1, "cn=\ud800", []) if a[1] % 2 else sess.extended_response(1, diagnostics_message="\udfff")
         elif k == "other-bind":
             ret = sess.bind("cn=o", OtherAuth(token=a[1].encode()))
         elif k == "other-search":
@@ -462,6 +482,26 @@ def direct_checks():
                 vio.append((f"registration-leaked:{kind}", f"session without the registration accepted the custom {kind}: {res!r}"))
             except sl.ProtocolError:
                 obs[f"direct:unregistered-{kind}-protocolerror"] = 1
+    # the custom filter nested under and / or / not
+    regf = sl.LDAPServer()
+    regf.register_filter(CustomFilter)
+    for shape in range(6):
+        d2 = bytes_nested_custom_filter(200 + shape, shape)
+        try:
+            m3 = regf.receive(d2)[0]
+            if "CustomFilter" not in repr(m3.filter) or m3.pack(sl._messages.PackingOptions(filter=regf._packing_options.filter) if hasattr(regf, "_packing_options") else sl._messages.PackingOptions()) != d2:
+                vio.append(("registered-filter-not-decoded:nested", f"shape {shape}: {m3.filter!r}"))
+            else:
+                obs["direct:nested-custom-filter"] = obs.get("direct:nested-custom-filter", 0) + 1
+        except sl.ProtocolError as e:
+            vio.append(("registered-filter-not-decoded:nested", f"registered session rejected the custom filter nested in shape {shape}: {e}"))
+            regf = sl.LDAPServer()
+            regf.register_filter(CustomFilter)
+        try:
+            sl.LDAPServer().receive(d2)
+            vio.append(("registration-leaked:filter:nested", f"unregistered session accepted the nested custom filter (shape {shape})"))
+        except sl.ProtocolError:
+            pass
     # several controls in one message, in orders that differ from the session's list of known types
     both = sl.LDAPServer()
     both.register_control(CustomControl)
